@@ -1,6 +1,9 @@
 import UpfVerif.Driver.Util
 import UpfVerif.Model.FlowDesc
 import UpfVerif.Spec.IPFilterRule
+import UpfVerif.Model.Xlate
+import UpfVerif.Spec.Rules
+import UpfVerif.Lemmas.Netlink
 namespace UpfVerif.Driver
 open UpfVerif.FlowDesc
 
@@ -90,6 +93,28 @@ def evalFlowRule (args : List String) (impl : String) : Option Verdict := do
     pure { model := model,
            propFails := if impl == want then [] else
              [s!"C16 the flow description \"{String.ofList s}\" (a rule of the supported grammar) is translated to [{impl}], it denotes [{want}]"] }
+  | _ => none
+
+/-! ### `T fd.pack <hex> <abstract syntax> <swap> = <hex of the attribute list>`: the packed form handed to the data plane,
+     read back by the independent reader of the gtp5g rule format, must be the filter the rule denotes -/
+open UpfVerif.Spec.IPFilter in
+def evalFlowPack (args : List String) (impl : String) : Option Verdict := do
+  match args with
+  | [h, abs, sw] =>
+    let bs ← parseDash h
+    let s : Str := bs.map fun b => Char.ofNat b.toNat
+    let r ← ruleOf abs
+    if fields s != r.tokens then none else
+    let swap := sw == "1"
+    let want := Rules.expectFlow r.denote swap
+    let model := match parseFlowDesc s with
+      | some f => Bytes.toHex (Netlink.encList (Xlate.flowDescAttrs f swap))
+      | none => "err"
+    let got := (parseDash impl).bind fun b => (Netlink.decodeTree b).map Gtp5gRead.readFlow
+    pure { model := model,
+           propFails := if got == some want then [] else
+             [s!"C16 the packed form of \"{String.ofList s}\" ({if swap then "uplink: source and destination exchanged" else "downlink"}) " ++
+              s!"decodes to {reprStr got}; the rule denotes {reprStr want}"] }
   | _ => none
 
 end UpfVerif.Driver
